@@ -166,8 +166,8 @@ package leader
 //@   on call wg.Add assert C20+C09.wait_group_grows_under_the_mutex_or_on_a_tracked_goroutine: (nheld(kvElection.mu) >= 1 && e.stopsWaiting == 0) || caller.onTrackedGoroutine
 //@   on call kvElection.onDemote assert C08+C09+C11+C13+C03+C06+C04+C12.callbacks_run_outside_the_mutex: nheld(kvElection.mu) == 0
 //@   on call kvElection.onPromote assert C08+C09+C13+C03+C06.callbacks_run_outside_the_mutex: nheld(kvElection.mu) == 0
-//@   on unlock kvElection.mu assert C18.gauge_follows_claim: $gaugeFresh
-//@   on call recordTransition as c assert C18.transition_chain: c.fromState == $stateAtLock && c.toState == $stateStored && held(c.e.mu) == 2
+//@   on unlock kvElection.mu assert C18+C19.gauge_follows_claim: $gaugeFresh
+//@   on call recordTransition as c assert C18+C19.transition_chain: c.fromState == $stateAtLock && c.toState == $stateStored && held(c.e.mu) == 2
 
 // ===========================================================================
 // Assumed contracts of the store and of user-supplied interfaces
@@ -580,8 +580,8 @@ package leader
 //@   ghost tcFn Int = 0
 //@   on store kvElection.termCancel as s set tcFn = s.value
 //@   on store kvElection.termCancel assert C19+C03+C08.term_cancel_replaced_only_between_terms: !wasLeaderAtLock
-//@   on call heartbeatLoop as c assert C07+C12+C03.loops_bound_to_the_term: tcFn != nil && CancelTarget(tcFn) == c.ctx
-//@   on call validationLoop as c assert C07+C04.loops_bound_to_the_term: tcFn != nil && CancelTarget(tcFn) == c.ctx
+//@   on call heartbeatLoop as c assert C07+C12+C03+C19.loops_bound_to_the_term: tcFn != nil && CancelTarget(tcFn) == c.ctx
+//@   on call validationLoop as c assert C07+C04+C19.loops_bound_to_the_term: tcFn != nil && CancelTarget(tcFn) == c.ctx
 //@   ghost claimed Bool = false
 //@   ghost stateL Int = 0
 //@   ghost ctxNilL Bool = false
@@ -619,7 +619,7 @@ package leader
 //@   ghost wrArmed Bool = false
 //@   on store kvElection.watcherRunning as s when !inspawn() set wrArmed = s.value
 //@   on call watchLoop assert C13+C06.one_watch_loop_at_a_time: inspawn() && !watcherSeen && wrArmed
-//@   on unlock kvElection.mu assert C03+C02+C04.claim_cleared_at_unlock: !unlessLeader ==> !e.isLeader
+//@   on unlock kvElection.mu assert C03+C02+C04+C19.claim_cleared_at_unlock: !unlessLeader ==> !e.isLeader
 //@   on store kvElection.isLeader assert C07+C08+C03+C18+C19.settling_never_clears_a_claim: unlessLeader ==> !cleared
 //@   ensures C07.settling_reports_nothing_cleared: unlessLeader ==> !result
 //@   ensures C08+C03+C19+C04.reports_cleared: !unlessLeader ==> result == cleared
@@ -627,7 +627,7 @@ package leader
 //@   ghost stateL Int = 0
 //@   on lock kvElection.mu set stateL = e.state
 //@   ensures C06.failed_round_rearms: stateL != "STOPPED" && !(unlessLeader && cleared) && ctxSeen && !watcherSeen ==> scalls(watchLoop) == 1
-//@   ensures C09+C02+C18.stopped_stays_stopped: stateL == "STOPPED" ==> scalls(watchLoop) == 0 && calls(recordTransition) == 0
+//@   ensures C09+C02+C18+C19.stopped_stays_stopped: stateL == "STOPPED" ==> scalls(watchLoop) == 0 && calls(recordTransition) == 0
 
 //@ func (e *kvElection) Stop()
 //@   tags C09 C08 C18 C01 C20
@@ -647,7 +647,7 @@ package leader
 //@   ghost mayCancelElection Bool = true
 //@   ghost firstUnlock Bool = true
 //@   on call cancel set e.stopped = true
-//@   on unlock kvElection.mu when firstUnlock assert C19+C09.stop_cancels_before_release: ctxNilL || stoppedL || calls(cancel) == 1
+//@   on unlock kvElection.mu when firstUnlock assert C19+C09+C18.stop_cancels_before_release: ctxNilL || stoppedL || calls(cancel) == 1
 //@   on unlock kvElection.mu set firstUnlock = false
 //@   on load kvElection.onDemote as l when l.value == nil set demoteNilSeen = true
 //@   on call wg.Wait assert C09.stop_waits_time_boxed: inspawn()
@@ -660,7 +660,7 @@ package leader
 //@   ensures C08.demote_iff_claim_cleared: !ctxNilL ==> (wasLeaderL ? (calls(onDemote) == 1 || (calls(onDemote) == 0 && demoteNilSeen)) : calls(onDemote) == 0)
 //@   ensures C09.second_stop: ctxNilL ==> result == ErrAlreadyStopped && calls(cancel) == 0 && calls(onDemote) == 0
 //@   ensures C09.stop_cancels: !ctxNilL ==> result == nil
-//@   ensures C09.stop_waits_for_the_goroutines: !ctxNilL ==> scalls(wg.Wait) == 1
+//@   ensures C09+C18.stop_waits_for_the_goroutines: !ctxNilL ==> scalls(wg.Wait) == 1
 //@   ensures C01.stop_never_deletes: calls(KeyValue.Delete) == 0 && calls(RevisionDeleter.DeleteRevision) == 0
 
 //@ func (e *kvElection) StopWithContext(ctx, opts)
@@ -683,7 +683,7 @@ package leader
 //@   ghost mayCancelElection Bool = true
 //@   ghost firstUnlock Bool = true
 //@   on call cancel set e.stopped = true
-//@   on unlock kvElection.mu when firstUnlock assert C19+C09.stop_cancels_before_release: ctxNilL || stoppedL || calls(cancel) == 1
+//@   on unlock kvElection.mu when firstUnlock assert C19+C09+C18.stop_cancels_before_release: ctxNilL || stoppedL || calls(cancel) == 1
 //@   on unlock kvElection.mu set firstUnlock = false
 //@   on call KeyValue.Delete assert C19+C09.delete_after_cancel: stoppedL || calls(cancel) == 1
 //@   on call RevisionDeleter.DeleteRevision assert C19+C09.delete_after_cancel: stoppedL || calls(cancel) == 1
@@ -701,7 +701,7 @@ package leader
 //@   on select set waitOver = true
 //@   on call KeyValue.Delete assert C09+C01.the_record_is_deleted_after_the_wait: waitOver
 //@   on call RevisionDeleter.DeleteRevision assert C09+C01.the_record_is_deleted_after_the_wait: waitOver
-//@   on return assert C09.stop_waits_for_the_goroutines: !ctxNilL ==> scalls(wg.Wait) == 1
+//@   on return assert C09+C18.stop_waits_for_the_goroutines: !ctxNilL ==> scalls(wg.Wait) == 1
 //@   ghost dlOK Bool = false
 //@   ghost untilRes Int = 0
 //@   on ret Context.Deadline as d when d.ctx == ctx set dlOK = d.result1
@@ -1070,7 +1070,7 @@ package leader
 //@   on load kvElection.leaderID as l set known = l.value
 //@   on store kvElection.leaderID as s set notedID = s.value
 //@   on store kvElection.leaderID set noted = true
-//@   ensures C18.periodic_check_learns_the_owner: got && getErr == nil && getEnt != nil && LenOf(EntryVal(getEnt)) != 0 && RecIDOK(EntryVal(getEnt)) && !sawLeader ==> (noted && notedID == RecID(EntryVal(getEnt))) || known == RecID(EntryVal(getEnt))
+//@   ensures C18+C10.periodic_check_learns_the_owner: got && getErr == nil && getEnt != nil && LenOf(EntryVal(getEnt)) != 0 && RecIDOK(EntryVal(getEnt)) && !sawLeader ==> (noted && notedID == RecID(EntryVal(getEnt))) || known == RecID(EntryVal(getEnt))
 
 //@ func (e *kvElection) handleWatchEvent(entry)
 //@   tags C06 C07 C08 C10 C13 C18
@@ -1095,7 +1095,7 @@ package leader
 //@   ensures C13.no_acquire_on_live_record: entry != nil && LenOf(EntryVal(entry)) != 0 ==> scalls(attemptAcquireWithRetry) == 0
 //@   ghost knownLeader Int = 0
 //@   on load kvElection.leaderID as l set knownLeader = l.value
-//@   ensures C10.reevaluates_each_event: entry != nil && LenOf(EntryVal(entry)) != 0 && ParseOK(EntryVal(entry)) && !sawLeader && knownLeader == IDOf(EntryVal(entry)) && e.cfg.AllowPriorityTakeover && e.cfg.Priority > PrioOf(EntryVal(entry)) ==> scalls(attemptAcquire) == 1
+//@   ensures C10+C01.reevaluates_each_event: entry != nil && LenOf(EntryVal(entry)) != 0 && ParseOK(EntryVal(entry)) && !sawLeader && knownLeader == IDOf(EntryVal(entry)) && e.cfg.AllowPriorityTakeover && e.cfg.Priority > PrioOf(EntryVal(entry)) ==> scalls(attemptAcquire) == 1
 //@   ensures C10.no_takeover_attempt_otherwise: scalls(attemptAcquire) == 1 ==> e.cfg.AllowPriorityTakeover && ParseOK(EntryVal(entry)) && e.cfg.Priority > PrioOf(EntryVal(entry))
 //@   ensures C13.ignore_unparsable: entry != nil && LenOf(EntryVal(entry)) != 0 && !ParseOK(EntryVal(entry)) ==> calls(becomeFollower) == 0 && scalls(attemptAcquire) == 0
 //@   ghost demoteSet Bool = false
